@@ -13,7 +13,8 @@ def run(ctx, br):
     rng = ctx.rng
     quick = ctx.tier == "quick"
     # (1) logic: schedules with short timeouts / send failures, replayed on the model
-    cov = c01.run(ctx, br, profiles=["timeouts", "timeouts", "senderr", "mixed"], prop="C13")
+    cov = c01.run(ctx, br, profiles=["timeouts", "timeouts", "senderr", "mixed"], prop="C13",
+                  nats_profiles=["timeouts", "puberr", "timeouts", "mixed", "noresp", "status"])
     # (2) wall clock: every transport x stall pattern x timeout
     touts = [500, 1000, 2000, 5000, 20000, 50000, 300000] if quick else [300, 500, 999, 1000, 2000, 5000, 20000, 50000, 200000]
     reqs = []
